@@ -44,7 +44,7 @@ Accept(r, ca, k) == LET h == Honest(r, ca) IN IF k < Len(h) THEN {h[k + 1]} ELSE
 VARIABLES role, ca, k, op, pc, input, pos, hist
 vars == <<role, ca, k, op, pc, input, pos, hist>>
 
-Benign(o) == o.op \in {"none", "refrag", "warnalert"} \/ (o.op = "script" /\ o.how = "none") \/ (o.op = "srvscript" /\ o.how = "reneg_honest")
+Benign(o) == o.op \in {"none", "refrag", "warnalert"} \/ (o.op = "script" /\ o.how \in {"none", "npn_offered"}) \/ (o.op = "srvscript" /\ o.how = "reneg_honest")
 
 \* the input stream the peer produces: honest flight with the op applied at message index k (1-based)
 Apply(h, kk, o) ==
@@ -68,7 +68,9 @@ Apply(h, kk, o) ==
     \* then produces no valid Finished: whatever version the server settled on, it ends with an error
     [] o.op = "selfvers" -> <<"MOD">> \o SubSeq(h, 2, Len(h))
     \* a scripted GMSSL client (own transcript and key schedule) that deviates consistently: "none" is the honest script
-    [] o.op = "script" -> IF o.how = "none" THEN h ELSE <<"BAD">>
+    \* ("npn_offered": the hello offers next-protocol negotiation, which a server without protocols ignores - benign;
+    \* "npn_unsolicited": the client then sends a NextProtocol message although the server did not take the offer up)
+    [] o.op = "script" -> IF o.how \in {"none", "npn_offered"} THEN h ELSE <<"BAD">>
     \* a scripted server that holds the genuine keys: selects an ECDHE-SM2 suite and names another curve; or runs the
     \* honest ECC flight and then sends its (correct) Finished in the clear without ChangeCipherSpec
     \* "reneg_*": after an honest first handshake the scripted TLS server asks for a second one (HelloRequest) and runs it
